@@ -74,7 +74,7 @@ func genCase(t *rapid.T) Case {
 	for i := 0; i < n; i++ {
 		kind := "retain"
 		if i > 0 {
-			kind = rapid.SampledFrom([]string{"retain", "read", "read", "read-goroutine", "read-conn", "write", "conn-retain", "conn-retain", "conn-read", "conn-read", "retain-odd", "reserialize", "unmarshal", "answer", "inspect", "echo", "marshal-echo", "buf-retain", "buf-read", "buf-read", "scribble", "retain-again", "scribble", "forward", "relay", "relay", "find-append"}).Draw(t, "kind")
+			kind = rapid.SampledFrom([]string{"retain", "read", "read", "read-goroutine", "read-conn", "write", "conn-retain", "conn-retain", "conn-read", "conn-read", "retain-odd", "reserialize", "unmarshal", "answer", "inspect", "echo", "marshal-echo", "buf-retain", "buf-read", "buf-read", "scribble", "retain-again", "scribble", "forward", "relay", "relay", "find-append", "advertise"}).Draw(t, "kind")
 		}
 		var m gen.Msg
 		m.Flags, m.Code, m.App, m.HbH, m.E2E = cat.Header(t)
@@ -119,38 +119,77 @@ func genCase(t *rapid.T) Case {
 // oddWire draws a message the decoder accepts leniently although it is not in canonical form
 // (fixed-width AVPs of other widths, an IPv4-mapped address under family 2, IPv4/IPv6-typed
 // AVPs of other lengths): its re-encoding differs from the bytes received.
+// oddNode draws one AVP of a non-canonical message: a leaf whose declared length is not the one the
+// library would produce for its value, an application-id AVP as a sloppy peer sends it (without
+// the M bit, with other bits, of another width), or a group (Failed-AVP / a Grouped AVP of the
+// generated dictionary / Vendor-Specific-Application-Id, with or without the M bit) of such AVPs.
+func oddNode(t *rapid.T, cat *gen.Catalog, depth int) *refcodec.Node {
+	max := 9
+	if depth >= 2 {
+		max = 7
+	}
+	switch rapid.IntRange(0, max).Draw(t, "odd-kind") {
+	case 5, 6: // an IPv4- / IPv6-typed AVP (generated dictionaries have them) of another length
+		var es []gen.Entry
+		for _, ty := range []string{gen.TIPv4, gen.TIPv6} {
+			es = append(es, cat.EntriesFor(0, ty)...)
+		}
+		if len(es) == 0 {
+			return &refcodec.Node{Code: 264, Flags: 0x40, Payload: []byte("host.example")}
+		}
+		e := es[rapid.IntRange(0, len(es)-1).Draw(t, "ip-entry")]
+		nd := &refcodec.Node{Code: e.Code, Flags: 0x40, Vendor: e.Vendor, Payload: rapid.SliceOfN(rapid.Byte(), 0, 20).Draw(t, "ip-odd")}
+		if e.Vendor != 0 {
+			nd.Flags |= 0x80
+		}
+		return nd
+	case 0:
+		return &refcodec.Node{Code: 278, Flags: 0x40, Payload: rapid.SliceOfN(rapid.Byte(), 0, 11).Draw(t, "u32-odd")}
+	case 1:
+		mapped := append([]byte{0, 0, 0, 0, 0, 0, 0, 0, 0, 0, 0xff, 0xff}, rapid.SliceOfN(rapid.Byte(), 4, 4).Draw(t, "ip4")...)
+		return &refcodec.Node{Code: 257, Flags: 0x40, Payload: refcodec.Address(2, mapped)}
+	case 2:
+		return &refcodec.Node{Code: 55, Flags: 0x40, Payload: rapid.SliceOfN(rapid.Byte(), 0, 9).Draw(t, "time-odd")}
+	case 3:
+		return &refcodec.Node{Code: 257, Flags: 0x40, Payload: refcodec.Address(8, rapid.SliceOfN(rapid.Byte(), 2, 2).Draw(t, "e164-2"))}
+	case 7: // Auth- / Acct-Application-Id of an application the state machine knows, as a sloppy peer sends it
+		nd := &refcodec.Node{Code: 258, Payload: refcodec.U32(4), Flags: rapid.SampledFrom([]uint8{0, 0, 0x40, 0x20}).Draw(t, "app-flags")}
+		if rapid.Bool().Draw(t, "acct") {
+			nd.Code, nd.Payload = 259, refcodec.U32(3)
+		}
+		if rapid.IntRange(0, 5).Draw(t, "app-wide") == 0 {
+			nd.Payload = append(make([]byte, 4), nd.Payload...)
+		}
+		return nd
+	case 8, 9: // a group of such AVPs
+		nd := &refcodec.Node{Code: 279, Flags: 0x40, Group: true}
+		var es []gen.Entry
+		for _, e := range cat.EntriesFor(0, gen.TGrouped) {
+			if e.Vendor == 0 {
+				es = append(es, e)
+			}
+		}
+		if len(es) > 0 {
+			nd.Code = es[rapid.IntRange(0, len(es)-1).Draw(t, "group-entry")].Code
+		}
+		if rapid.IntRange(0, 2).Draw(t, "vsa") == 0 {
+			nd.Code, nd.Flags = 260, rapid.SampledFrom([]uint8{0, 0x40}).Draw(t, "vsa-flags")
+			nd.Children = append(nd.Children, &refcodec.Node{Code: 266, Flags: nd.Flags, Payload: refcodec.U32(10415)})
+		}
+		k := rapid.IntRange(1, 3).Draw(t, "members")
+		for j := 0; j < k; j++ {
+			nd.Children = append(nd.Children, oddNode(t, cat, depth+1))
+		}
+		return nd
+	}
+	return &refcodec.Node{Code: 264, Flags: 0x40, Payload: []byte("host.example")}
+}
+
 func oddWire(t *rapid.T, cat *gen.Catalog) []byte {
 	var nodes []*refcodec.Node
 	n := rapid.IntRange(1, 4).Draw(t, "odd-avps")
 	for i := 0; i < n; i++ {
-		switch rapid.IntRange(0, 6).Draw(t, "odd-kind") {
-		case 5, 6: // an IPv4- / IPv6-typed AVP (generated dictionaries have them) of another length
-			var es []gen.Entry
-			for _, ty := range []string{gen.TIPv4, gen.TIPv6} {
-				es = append(es, cat.EntriesFor(0, ty)...)
-			}
-			if len(es) == 0 {
-				nodes = append(nodes, &refcodec.Node{Code: 264, Flags: 0x40, Payload: []byte("host.example")})
-				continue
-			}
-			e := es[rapid.IntRange(0, len(es)-1).Draw(t, "ip-entry")]
-			nd := &refcodec.Node{Code: e.Code, Flags: 0x40, Vendor: e.Vendor, Payload: rapid.SliceOfN(rapid.Byte(), 0, 20).Draw(t, "ip-odd")}
-			if e.Vendor != 0 {
-				nd.Flags |= 0x80
-			}
-			nodes = append(nodes, nd)
-		case 0:
-			nodes = append(nodes, &refcodec.Node{Code: 278, Flags: 0x40, Payload: rapid.SliceOfN(rapid.Byte(), 0, 11).Draw(t, "u32-odd")})
-		case 1:
-			mapped := append([]byte{0, 0, 0, 0, 0, 0, 0, 0, 0, 0, 0xff, 0xff}, rapid.SliceOfN(rapid.Byte(), 4, 4).Draw(t, "ip4")...)
-			nodes = append(nodes, &refcodec.Node{Code: 257, Flags: 0x40, Payload: refcodec.Address(2, mapped)})
-		case 2:
-			nodes = append(nodes, &refcodec.Node{Code: 55, Flags: 0x40, Payload: rapid.SliceOfN(rapid.Byte(), 0, 9).Draw(t, "time-odd")})
-		case 3:
-			nodes = append(nodes, &refcodec.Node{Code: 257, Flags: 0x40, Payload: refcodec.Address(8, rapid.SliceOfN(rapid.Byte(), 2, 2).Draw(t, "e164-2"))})
-		default:
-			nodes = append(nodes, &refcodec.Node{Code: 264, Flags: 0x40, Payload: []byte("host.example")})
-		}
+		nodes = append(nodes, oddNode(t, cat, 0))
 	}
 	code := uint32(257)
 	if _, err := cat.P.FindCommand(0, code); err != nil {
@@ -378,6 +417,13 @@ func runCase(c Case) *ev.Failure {
 				if f := relayKept(r, c.Dict.Name, p, i); f != nil {
 					return f
 				}
+			}
+		case "advertise":
+			// a relay advertises upstream the applications found in the kept messages: their Auth- /
+			// Acct- / Vendor-Specific-Application-Id AVPs become the configuration of an sm.Client,
+			// which dials (builds and writes its own CER): see upstream_test.go
+			for _, r := range kept {
+				advertiseUpstream(r.m)
 			}
 		case "find-append":
 			// the holder appends to the slices FindAVPs / FindAVPsWithPath returned
@@ -615,7 +661,7 @@ func readThroughConn(p *dict.Parser, ref []byte, step int) *ev.Failure {
 
 var prop = ev.Register(&ev.Prop[Case]{
 	ID: "C06", Name: "retained",
-	Rule: "histories of {retain a decoded message, retain a message delivered by a long-lived library-served connection while that connection goes on receiving, read other content on the same goroutine / another goroutine / through a fresh or the same library-served in-memory connection, read / retain from one bytes.Buffer that the application refills, WriteTo, forward a kept message (WriteTo, WriteToWithRetry / WriteToStreamWithRetry against a transport that first refuses or accepts a part), re-serialise, Unmarshal into a reused struct, Answer, inspect (FindAVP / FindAVPs / FindAVPsWithPath through its groups, String, Len), echo the AVPs of a retained message into an answer with AddAVP / InsertAVP or through Marshal of a []*diam.AVP field, relay (build and write further messages with Marshal from structs whose []*diam.AVP / *diam.AVP / diam.AVP fields - first, in the middle, inside a Grouped struct, inside an embedded struct - hold EVERY window kept.AVP[i:j] of the AVP list of a kept message and of each group inside it, followed by fields of the relay's own, then NewAVP / AddAVP / InsertAVP on the marshalled message; the same windows AVP by AVP), append to the slices FindAVPs / FindAVPsWithPath returned, retain a non-canonical wire image (other widths of fixed-width, IPv4 and IPv6 AVPs, version octet 0 / 2 / 255), keep a second decoding of the bytes of the first retained message, overwrite in place the slice-backed values (and replace others, and flip a flag bit) of one retained message - the others must not change} with messages made of slice-backed types (Address IPv4/IPv6/other, IPv4, IPv6, OctetString, undefined codes, groups of them) on both sides of the 1 KiB pooled buffer; after EVERY step every retained message must still equal the abstract message it was decoded from (tree, re-serialisation, rendering, and the snapshot of code / flags / vendor id / Length / value bytes of every AVP taken when it was decoded); non-trivial = a retained message with a slice-backed value and body <= 1024 followed by a later read with body <= 1024",
+	Rule: "histories of {retain a decoded message, retain a message delivered by a long-lived library-served connection while that connection goes on receiving, read other content on the same goroutine / another goroutine / through a fresh or the same library-served in-memory connection, read / retain from one bytes.Buffer that the application refills, WriteTo, forward a kept message (WriteTo, WriteToWithRetry / WriteToStreamWithRetry against a transport that first refuses or accepts a part), re-serialise, Unmarshal into a reused struct, Answer, inspect (FindAVP / FindAVPs / FindAVPsWithPath through its groups, String, Len), echo the AVPs of a retained message into an answer with AddAVP / InsertAVP or through Marshal of a []*diam.AVP field, relay (build and write further messages with Marshal from structs whose []*diam.AVP / *diam.AVP / diam.AVP fields - first, in the middle, inside a Grouped struct, inside an embedded struct - hold EVERY window kept.AVP[i:j] of the AVP list of a kept message and of each group inside it, followed by fields of the relay's own, then NewAVP / AddAVP / InsertAVP on the marshalled message; the same windows AVP by AVP and as the member list of a GroupedAVP of the relay's own given to NewAVP; the values kept.AVP[k].Data - plain and whole groups - handed to Message.NewAVP / diam.NewAVP), append to the slices FindAVPs / FindAVPsWithPath returned, advertise (the Auth- / Acct- / Vendor-Specific-Application-Id AVPs of the kept messages become the configuration of an sm.Client that dials twice over an in-memory transport), retain a non-canonical wire image (other widths of fixed-width, IPv4 and IPv6 AVPs, application-id AVPs without the M bit / of other widths, all of these also inside groups and groups in groups; version octet 0 / 2 / 255), keep a second decoding of the bytes of the first retained message, overwrite in place the slice-backed values (and replace others, and flip a flag bit) of one retained message - the others must not change} with messages made of slice-backed types (Address IPv4/IPv6/other, IPv4, IPv6, OctetString, undefined codes, groups of them) on both sides of the 1 KiB pooled buffer; after EVERY step every retained message must still equal the abstract message it was decoded from (tree, re-serialisation, rendering, and the snapshot of code / flags / vendor id / Length / value bytes of every AVP taken when it was decoded); non-trivial = a retained message with a slice-backed value and body <= 1024 followed by a later read with body <= 1024",
 	Gen:  genCase, Run: runCase,
 	Classify: func(c Case) (bool, []string) {
 		var cl []string
